@@ -69,6 +69,16 @@ static void scene(int a, int b, int ncalls)
       if (ncalls == 1) delete w;                 // ... and the later death is unexpected
     }
     dump("death", n3);
+    size_t n3b = G::reports().size();
+    {
+      // the requirement held through a reference bound to the macro's result (lifetime extension of the temporary)
+      auto w2 = new trompeloeil::deathwatched<PlainS>;
+      auto&& req = NAMED_REQUIRE_DESTRUCTION(*w2);
+      G::out("S refreq %d", req->is_satisfied() ? 1 : 0);
+      delete w2;
+      G::out("S refreq %d", req->is_satisfied() ? 1 : 0);
+    }
+    dump("refreq", n3b);
     size_t n4 = G::reports().size();
     {
       REQUIRE_CALL(m, v());                      // never called, mock dies first (end of enclosing scope)
@@ -118,6 +128,7 @@ def expected():
                     out.append('S exit N unfulfilled')
                 if n == 1:
                     out += ['S death N alive', 'S death N unexpected']
+                out += ['S refreq 0', 'S refreq 1']
                 out.append('S pending-scope')
                 if n != 0:
                     out.append('S vexit N unfulfilled')
